@@ -111,6 +111,8 @@ type Ctx struct {
 	guards    map[int64]*guard
 	guardSeq  int64
 	nviol     int64
+	nknown    int64
+	known     map[string]bool
 	// Activity is bumped by harness components (memnet I/O, hook hits) so the hang
 	// detector can tell "blocked for good" from "slow".
 	Activity int64
@@ -221,6 +223,15 @@ func (c *Ctx) Violation(key, what string, witness interface{}) {
 		b, _ = json.Marshal(v)
 	}
 	c.mu.Lock()
+	if c.known[key] {
+		// a recorded known finding: keep a few witnesses, do not let it trigger the early stop
+		c.nknown++
+		if c.violF != nil && c.nknown < 200 {
+			c.violF.Write(append(b, '\n'))
+		}
+		c.mu.Unlock()
+		return
+	}
 	c.nviol++
 	if c.violF != nil && c.nviol < 20000 {
 		c.violF.Write(append(b, '\n'))
@@ -339,6 +350,14 @@ func RunWorker(p *Prop, ph *Phase, c *Ctx, start int, only int) int {
 	c.res.Inconclusive = map[string]string{}
 	c.sets = map[string]map[string]struct{}{}
 	c.guards = map[int64]*guard{}
+	c.known = map[string]bool{}
+	if dir := os.Getenv("VERIF_DIR"); dir != "" {
+		for k, f := range loadKnown(dir) {
+			if f.Status == "known" {
+				c.known[k] = true
+			}
+		}
+	}
 	c.maxSample = 3
 	c.hashF, _ = os.OpenFile(filepath.Join(c.OutDir, "hashes.bin"), os.O_CREATE|os.O_WRONLY|os.O_APPEND, 0o644)
 	c.violF, _ = os.OpenFile(filepath.Join(c.OutDir, "violations.jsonl"), os.O_CREATE|os.O_WRONLY|os.O_APPEND, 0o644)
